@@ -711,7 +711,7 @@ def audit_cases(rng, k=1):
             c["functional"] = True
         add(c, "audit-shift-eval", 2)
     # (2) pads larger than T through every entry point that shares the padding helper
-    for _ in range(120 * k):
+    for _ in range(105 * k):
         N, T = rng.choice([1, 2, 3]), rng.choice([1, 1, 2, 3, 4])
         mode = rng.choice(["replicate", "replicate", "replicate", "constant"])
         lo = 1 if mode == "replicate" else 0
@@ -786,7 +786,7 @@ def audit_cases(rng, k=1):
             c = chunk_case(N, T, [], lens, slices, mode, **kw())
         add(c, "audit-alias-history", 1, force=("alias", "twice", "idx_views"))
     # (5) the real generator: eager and scripted layer / function under the same seed; judged by Spec.spec_shift_okb
-    for _ in range(60 * k):
+    for _ in range(40 * k):
         N, T = rng.choice([1, 2, 3]), rng.choice([1, 2, 4, 6, 8])
         mode = rng.choice(MODES)
         lo = 0 if mode == "constant" else 1
@@ -1005,9 +1005,9 @@ def run(chk, cases=None):
             cases.append(c)
         # one variant on a slice of the enumerated cases (deterministic choice)
         for i, c in enumerate(cases):
-            if i % 6 == 0:
+            if i % 8 == 0:
                 pool = ALTS[c["api"]]
-                c["alts"] = [pool[(i // 6) % len(pool)]]
+                c["alts"] = [pool[(i // 8) % len(pool)]]
         cases += random_cases(chk.rng, 12000 if chk.tier == "thorough" else 1000)
         cases += audit_cases(chk.rng, 8 if chk.tier == "thorough" else 1)
         if chk.tier == "thorough":
